@@ -42,7 +42,7 @@ func (c13) Cases(tier string) int {
 	if tier == "thorough" {
 		return 60000
 	}
-	return 4000
+	return 8000
 }
 func (c13) RaceCases(tier string) int {
 	if tier == "thorough" {
